@@ -386,6 +386,8 @@ def run(repo, res, tier):
     FC.fieldcover(repo, res, "dfa::DFA::get_commands", "Inp", "cmd", "call:insert", min_matches=2)
     FC.fieldcover(repo, res, "dfa::Inp::get_fallback_level", "Inp", "fallback_level", "value")
     column_units(repo, res)
+    from . import c10
+    c10.outfile_rule(repo, res)  # `having written a complete script`: the destination holds this run's bytes only
     from vlib import rules_skips as SK, tables
     n_sk = SK.skips_rule(repo, res, tables.load("skips")["row"], only={"check::get_nonterminals_resolution_order", "check::traverse_nonterminal_dependencies_dfs", "check::get_not_depended_on_nonterminals"})
     res.floor("SKIPS", n_sk, 12)
